@@ -157,6 +157,13 @@ def run(prog: Program, rep, thorough: bool) -> None:
                     problems.append(f'the {fld} test is `{t!r}`: not the strict `state < limit` of the statement')
                     hit = (fld, pol)
             if hit is None and (t.kind == 'opaque' or t.rf is None):
+                req = [p_ for p_ in F.func.positional[2:] if p_ in (t.key or '')]
+                if req:
+                    # a parameter of the request (range, step, flags, time step): what a stopped call reports must not
+                    # depend on what was asked to be recorded
+                    problems.append(f'what the limit block does depends on the request parameter `{req[0]}` (`{t!r}`): the stop and its '
+                                    f'last row are no longer the same for every kind of request (the zero finder integrates with no flags)')
+                    continue
                 raise AnalysisError(f'limit block: the outcome depends on `{t!r}`, which the evaluator cannot read')
             if hit is None:
                 problems.append(f'the limit block depends on `{t!r}`, which is none of the three limit tests on the '
